@@ -392,7 +392,25 @@ def postFluent (rel : Rel) (cs : List α) (xs : List Nat) (rhs : α) : Post α :
 /-- `m.new(x.rel(y))` between two variables: all coefficients are the integers 1, -1, so the AST
 becomes `LinearInt` (a row for the LP, but an integer linear propagator that is never scanned) -/
 def postFluentVV (rel : Rel) (x y : Nat) : Post α :=
-  .pend rel [one, -one] [x, y] zero rel.lpExtractable false
+  -- `try_convert_to_linear_ast` merges a variable that occurs on both sides: `x rel x` is the row `0·x rel 0`
+  if x = y then .pend rel [zero] [x] zero rel.lpExtractable false
+  else .pend rel [one, -one] [x, y] zero rel.lpExtractable false
+
+/-- `post_constraint_kind` on `x == y` between two variables calls `apply_var_eq_bounds` BEFORE the
+AST is stored: when both are integer variables and `[max(min x, min y), min(max x, max y)]` is not
+empty, every value outside that range is removed from both domains at once (nothing happens for
+an empty range or when a float variable is involved); the constraint itself stays deferred -/
+def OModel.postFluentVV (m : OModel α) (rel : Rel) (x y : Nat) : OModel α :=
+  let vars := match rel, m.vars[x]?, m.vars[y]? with
+    | .eq, some (.int d1), some (.int d2) =>
+      let lo := if ilmin d1 > ilmin d2 then ilmin d1 else ilmin d2
+      let hi := if ilmax d1 < ilmax d2 then ilmax d1 else ilmax d2
+      if lo ≤ hi then
+        let keep (d : List Int) : List Int := d.filter (fun v => !(decide (v < lo) || decide (v > hi)))
+        (m.vars.set x (.int (keep d1))).set y (.int (keep d2))
+      else m.vars
+    | _, _, _ => m.vars
+  { vars := vars, posts := m.posts ++ [Opt.postFluentVV rel x y] }
 
 /-- `m.new(x.eq(float(c)))`: materialised at once — the interval of `x` is overwritten with
 `[c, c]`, a constant variable `float(c, c)` is created and `props.equals(x, const)` is posted -/
